@@ -10,7 +10,7 @@ TOKEN_CLAUSES_C10 = ["C10_ToERC20", "C10_FromERC20", "C10_Hook", "C10_SumConst",
 
 # driver configurations: the chain the harness builds must be the model's Init
 BASE = "minunits=maa:mbb,basefee=5,taxnum=2,taxden=5,mintnum=1,mintden=2"
-C09_MC_CFG = "users=3,stake=9," + BASE                       # MC_Token.cfg, MC_TokenId.cfg
+C09_MC_CFG = "users=3,stake=7," + BASE                       # MC_Token.cfg, MC_TokenId.cfg
 C09_GEN_CFG = "users=3,stake=40," + BASE                     # GEN_Token.cfg
 REG = ",regin=maa,regout=mbb,regrn=3,regrd=2"
 C10_MC_CFG = "users=2,quirks=1,stake=9," + BASE + REG        # MC_TokenErc.cfg (+ math rows: no chain)
